@@ -814,6 +814,9 @@ struct StrDriver {
         case K_INSERT:
             pos = static_cast<size_t>(st.k[0] % (sz + 1));
             len = static_cast<size_t>(st.k[1] % (room + 1));
+            if (flt) {
+                len = room + 1 + static_cast<size_t>(st.k[1] % 8); // does not fit: contained-overflow clause
+            }
             cnt = len;
             cnt2 = npos;
             if (var == 4 || var == 6 || var == 7 || var == 8) {
@@ -856,7 +859,13 @@ struct StrDriver {
                 cnt2      = var == 2 ? pick_count(st.k[1] / 5, mo.size() - pos2) : npos;
             }
             break;
-        case K_RESIZE: cnt = static_cast<size_t>(st.k[0] % (N + 1)); break;
+        case K_RESIZE:
+            cnt = static_cast<size_t>(st.k[0] % (N + 1));
+            if (flt) {
+                cnt = N + 1 + static_cast<size_t>(st.k[0] % 4);
+                len = cnt; // marks the step as an overflow candidate (len is otherwise unused by resize)
+            }
+            break;
         case K_POP:
             if (sz == 0 && !(flt && misuse)) {
                 skip();
@@ -873,6 +882,9 @@ struct StrDriver {
             break;
         case K_PLUS:
             len = static_cast<size_t>(st.k[0] % (room + 1));
+            if (flt) {
+                len = room + 1 + static_cast<size_t>(st.k[0] % 4);
+            }
             if (var == 2 || var == 4) {
                 len = 1;
             }
@@ -1007,9 +1019,32 @@ struct StrDriver {
                 }
                 return;
             }
-            // every other operation: a result that does not fit is outside the property's domain
-            ctx.log.s(" does-not-fit");
-            skip();
+            // every other operation whose std result does not fit: capacity exhaustion (F1) without a documented
+            // answer. The library may truncate or trap, the content is unspecified - but the string must stay inside
+            // its storage and keep its invariants (checked here and by the guards / sanitizers); then re-synchronise.
+            if (!flt || len == npos || usesOther) {
+                ctx.log.s(" does-not-fit");
+                skip();
+                return;
+            }
+            auto out = guarded(true, [&] { apply_mut(kind, var, v, B.sa); });
+            ++ctx.faultsFired;
+            ++ctx.boundaryEvents;
+            SIM_COUNT("F1.overflowing_operation_contained");
+            ctx.log.s(out == Outcome::trapped ? " ->overflow-trapped" : " ->overflow-truncated");
+            if (!sane(a)) {
+                ctx.violation("C04", "invariant:size-after-overflow", "size() exceeds capacity() after an operation that did not fit");
+                ctx.stop = true;
+                return;
+            }
+            if (v.data()[v.size()] != Char(0)) {
+                ctx.violation("C04", "invariant:terminator-after-overflow", "string not terminated after an operation that did not fit");
+            }
+            if (!arena_guards_ok(a)) {
+                ctx.violation("C02", "memory:guard-damaged", "an operation that did not fit wrote outside the string object");
+                arena_guards_repair(a);
+            }
+            resync(a);
             return;
         }
 
